@@ -173,8 +173,9 @@ public:
       // If this is a newline continuation, skip it and all leading spaces (like
       // Ninja, only blanks: a tab is part of the text).
       int c = *pos;
-      if (c == '\n') {
-        ++pos;
+      if (c == '\n' || (c == '\r' && pos + 1 != end && pos[1] == '\n')) {
+        // (the lexer accepts a CR LF pair wherever it accepts a newline)
+        pos += (c == '\r') ? 2 : 1;
         while (pos != end && *pos == ' ')
           ++pos;
         continue;
